@@ -35,6 +35,8 @@ type Profile struct {
 	MaxDepth    int
 	MaxFields   int
 	MinFields   int
+	// AllowEmptyStructs lets nested structs have no fields at all.
+	AllowEmptyStructs bool
 	// Tagger, if set, may set f.Tag for a generated field (depth 0 = root).
 	Tagger func(t *rapid.T, f *Field, depth int)
 }
@@ -105,6 +107,10 @@ func Gen(t *rapid.T, p Profile) Shape {
 func genFields(t *rapid.T, p Profile, depth int) []Field {
 	min := p.MinFields
 	if depth > 0 && min < 1 {
+		min = 0
+	}
+	if depth > 0 && p.AllowEmptyStructs {
+		// nested structs may be empty (struct{}): still a retained field
 		min = 0
 	}
 	n := rapid.IntRange(min, p.MaxFields).Draw(t, "nfields")
